@@ -111,4 +111,10 @@ def run(ctx, chk):
         core.import_rows(chk, cfg, "C04", "props.C04", ("I-endian", "I-order", "S-kmer-int"))
         # "the minimum over a sequence's k-mers is its minimiser": min()/max()/fold run over KmerIter, whose rows are imported
         core.import_rows(chk, cfg, "C08", "props.C08", ("G05", "I-override"))
+        # "consistent with equality": the equality the order must agree with is C02's (storage words for Kmer, content for Seq)
+        core.import_rows(chk, cfg, "C02", "props.C02", ("S-eq", "G-kmer-eq"))
+    import core as _core
+    for cfg in ctx.configs():
+        chk.cfg = cfg.name
+        _core.import_codec_core(chk, cfg)      # the symbols' own tables (C05)
     chk.floor("comparator rows", n, 4 * len(chk.configs))
